@@ -297,6 +297,22 @@ def gen_plan_directed(p, rng, limit):
             for k in range(cap + 2):
                 ls.append("@0 update | %s:S ; %s:S" % (_key(5, a), _key(5, d)))
             out += ls
+    # reports made while no task has been added since activation - in every phase callback of the active state and of the root, for
+    # another (inactive) state - then a plan: the old report must neither fail nor complete it, the origin's own success fires the task
+    if N >= 2:
+        for a in states[:2]:
+            other = states[-1] if states[-1] != a else states[0]
+            d = other
+            for m in (4, 5, 6, 7, 8, 10):
+                for who in ((a, 255) if p.get("head") else (a,)):
+                    for rep in ("F", "S"):
+                        ls = _activate(p)
+                        if a != 0:
+                            ls.append("@0 ito %d" % a)
+                        call = "@0 update" if m <= 6 else "@0 react 2"
+                        ls += ["%s | %s:%s%d" % (call, _key(m, who), rep, other), "@0 react 1", "@0 pc %d %d" % (a, d), "@0 pc %d %d" % (d, a),
+                               "@0 succeed %d" % a, "@0 react 3" if m <= 6 else "@0 update", "@0 update | %s:S" % _key(5, d), "@0 update"]
+                        out += ls
     # failure processed on an empty plan, then idle cycles (no outcome may repeat without a new report)
     for a in states:
         ls = _activate(p)
